@@ -57,7 +57,8 @@ def estimate_minor(
     def default_filter_fn(cov, mut):
         # TODO: is this necessary?
         r = gene.region_at(mut.pos)
-        if mut.op != "_" and not (
+        # "-" marks the bases of a deletion: they are part of the depth of a locus
+        if mut.op not in ["_", "-"] and not (
             mut in mutations
             or (r and r[1][0] == "e")
             or (r and r[1] in ["utr3", "utr5", "up"])
